@@ -75,8 +75,9 @@ class FactEngine(object):
                         return True
             return False
 
-        def stable(init, decl_node=None):
-            """Every variable the initialiser reads keeps its value from the declaration on."""
+        def stable(init, decl_node=None, ref=False):
+            """Every variable the initialiser reads keeps its value from the declaration on.
+            (ref: the local is a reference, so only the address computation has to be stable.)"""
             for y in walk(init):
                 k = y.get('kind')
                 if k == 'DeclRefExpr':
@@ -93,9 +94,9 @@ class FactEngine(object):
                                 return False
                 elif k == 'CXXThisExpr' and not const_method:
                     return False
-                elif k == 'UnaryOperator' and y.get('opcode') == '*':
+                elif k == 'UnaryOperator' and y.get('opcode') == '*' and not ref:
                     return False
-                elif k == 'ArraySubscriptExpr':
+                elif k == 'ArraySubscriptExpr' and not ref:
                     return False
             return True
         subst = {}
@@ -110,7 +111,8 @@ class FactEngine(object):
             if not ks:
                 continue
             init = ks[-1]
-            if not _pure(init) or not stable(init, d) or d.get('kind') == 'ParmVarDecl':
+            isref = t.rstrip().endswith('&') and not t.rstrip().endswith('&&')
+            if not _pure(init, ref=isref) or not stable(init, d, ref=isref) or d.get('kind') == 'ParmVarDecl':
                 continue
             # only scalar / pointer / reference locals
             dt = dtype(d)
@@ -123,6 +125,10 @@ class FactEngine(object):
         self.keys.subst = {}
         for i in sorted(subst, key=lambda j: (decls[j].get('_pos') or ('', 0, 0))[1] or 0):
             self.keys.subst[i] = self.keys.key(subst[i])
+        # element accesses through write-once pointer locals are keyed as the container element
+        from .ptrnorm import build_env
+        penv = build_env(self.fn, self.keys, self.never_written)
+        self.keys.ptrenv = {i: v for i, v in penv.items() if v[0] == 'ptr'}
         # identification keys: additionally, a never-written local (scalar, pointer, reference or
         # const-qualified object) initialised from a call stands for that call's value.  Used by
         # rules to tell WHAT value an expression denotes, never to relate two evaluations.
@@ -162,6 +168,13 @@ class FactEngine(object):
                     _seen.add(i)
                     for y in self.walk_ident(self._ident_init[i], _seen):
                         yield y
+
+    def resolve_key(self, k):
+        """A key that is just a write-once local: the key of what it was initialised from."""
+        m = re.match(r'^\w+#(0x[0-9a-f]+)$', k or '')
+        if m and m.group(1) in getattr(self, '_ident', {}):
+            return self._ident[m.group(1)]
+        return k
 
     def ident_key(self, e):
         """Key of e with write-once locals replaced by what they were initialised from (calls included)."""
@@ -204,6 +217,59 @@ class FactEngine(object):
                 return out
         f = self._truthy(x, truth)
         return [f] if f else []
+
+    def bool_cases(self, e):
+        """Short-circuit expansion of a boolean expression: [(facts that hold, value)] where value is
+        True / False, or the key of the expression when it is not a boolean combination of tests."""
+        x = peel(e)
+        k = x.get('kind')
+        if k == 'BinaryOperator' and x.get('opcode') in ('&&', '||'):
+            a, b = kids(x)
+            out = []
+            stop = (x['opcode'] == '||')
+            for (fa, va) in self.bool_cases(a):
+                if va is stop:
+                    out.append((fa, va))
+                elif va is (not stop):
+                    for (fb, vb) in self.bool_cases(b):
+                        out.append((fa + fb, vb))
+                else:
+                    return [([], self.key(x))]
+            return out
+        if k == 'UnaryOperator' and x.get('opcode') == '!':
+            return [(fs, (not v) if isinstance(v, bool) else '!(%s)' % v) for (fs, v) in self.bool_cases(kids(x)[0])]
+        if k == 'CXXBoolLiteralExpr':
+            return [([], bool(x.get('value')))]
+        v = self.folder.fold(x)
+        if v is not None and (dtype(x) == 'bool' or k == 'IntegerLiteral'):
+            return [([], bool(v))]
+        if k == 'ConditionalOperator':
+            c, a, b = kids(x)
+            out = []
+            for (fc, vc) in self.bool_cases(c):
+                if not isinstance(vc, bool):
+                    return [([], self.key(x))]
+                for (fb, vb) in self.bool_cases(a if vc else b):
+                    out.append((fc + fb, vb))
+            return out
+        is_test = (k == 'BinaryOperator' and x.get('opcode') in ('<', '<=', '>', '>=', '==', '!=')) or \
+            (k == 'CXXOperatorCallExpr' and callee(x) and callee(x)[0] == 'fn' and
+             callee(x)[1].get('name') in ('operator<', 'operator<=', 'operator>', 'operator>=', 'operator==', 'operator!='))
+        if is_test or dtype(x) == 'bool' or dtype(x).endswith('*'):
+            return [(self.cond_facts(x, True), True), (self.cond_facts(x, False), False)]
+        return [([], self.key(x))]
+
+    def return_cases(self, rn):
+        """[(facts, value)] for a return node: must-facts on arrival plus the short-circuit cases of
+        the returned expression (value True/False for boolean results, else its key)."""
+        ks = kids(rn.ast)
+        base = list(self.facts_at(rn))
+        if not ks:
+            return [(frozenset(base), None)]
+        t = dtype(ks[0])
+        if t != 'bool':
+            return [(frozenset(base), self.key(ks[0]))]
+        return [(frozenset(base + list(fs)), v) for (fs, v) in self.bool_cases(ks[0])]
 
     def _truthy(self, x, truth, key=None, ty=None):
         key = key or self.key(x)
@@ -426,9 +492,13 @@ def _root_decl(e):
     return None
 
 
-def _pure(e):
+def _pure(e, ref=False):
     for x in walk(e):
         k = x.get('kind')
+        if k == 'CXXOperatorCallExpr' and ref:
+            c = callee(x)
+            if c and c[0] == 'fn' and c[1].get('name') in ('operator[]', 'operator*', 'operator->'):
+                continue        # element access naming the referent of a reference local
         if k in ('CallExpr', 'CXXOperatorCallExpr'):
             return False
         if k == 'CXXMemberCallExpr':
